@@ -11,6 +11,9 @@ import Drpc.Migrate
       complete, `f<i>:<k>` makes it fail after k bytes
   mux n=<prefixLen> ops=<R<hex>,A<l>,C<l>,X,F<tag>,N,W<c>:<hex>,E<c>,…> sizes=<sizes>
       a schedule of API calls / environment events on a ListenMux; after each the system runs to quiescence
+      Q<l>:<hex> / q<l>:<hex>: the burst lis.Close(); m.Route(hex) by one goroutine, nothing waiting in between —
+      `Q`: Route's critical section comes before the closed listener's monitorListener takes m.mu,
+      `q`: the monitor's select and delete come first (the harness reads the order off Route's result)
 -/
 namespace Drpc.Driver.Migrate
 open Drpc Drpc.Driver Drpc.Migrate
@@ -154,6 +157,23 @@ def mOp (n : Nat) (r : MRun) (tok : String) : Option (MRun × String) :=
     let r2 := mSettle n 10000 r'
     let ev := mEvents r r2
     some (r2, if pre.isEmpty then ev else if ev = "-" then pre else pre ++ "+" ++ ev)
+  let burst (rest : String) (monFirst : Bool) : Option (MRun × String) :=
+    match rest.splitOn ":" with
+    | [l, h] => do
+      let lid ← l.toNat?
+      let p ← Bytes.ofHex? h
+      let s1 ← Mux.step n r.s (.closeCall lid)
+      let s2 := if monFirst then
+          let a := (Mux.step n s1 (.monFire lid)).getD s1
+          (Mux.step n a (.monDelete lid)).getD a
+        else s1
+      let s' ← Mux.step n s2 (.route p)
+      let pre := if s'.panics ≠ s2.panics then "panic" else
+        match lookupRoute s'.routes p with
+        | some l => s!"l{l}"
+        | none => "l?"
+      settle { r with s := s' } pre
+    | _ => none
   match tok.toList with
   | 'R' :: h => do
     let p ← Bytes.ofHex? (String.ofList h)
@@ -171,6 +191,8 @@ def mOp (n : Nat) (r : MRun) (tok : String) : Option (MRun × String) :=
     let lid ← (String.ofList l).toNat?
     let s' ← Mux.step n r.s (.closeCall lid)
     settle { r with s := s' } ""
+  | 'Q' :: rest => burst (String.ofList rest) false
+  | 'q' :: rest => burst (String.ofList rest) true
   | ['X'] => do
     let s' ← Mux.step n r.s .cancel
     -- monitorContext also closes the base listener, whose Accept then fails
